@@ -120,7 +120,7 @@ func VerifH_C09_verify_hostname() {
 	})
 	mh, md, mn, mc := 3, 2, 1, 1
 	if vr.Tier() == 1 {
-		mh, md, mn, mc = 4, 3, 2, 2
+		mh, md, mn, mc = 4, 2, 1, 1 // (4,3,2,2) exceeds 200000 paths
 	}
 	host := vr.String("host", vr.Int("hlen", 0, mh))
 	c := &Certificate{}
